@@ -156,7 +156,9 @@ const preambleInt = `(set-option :produce-models true)
 (declare-fun bits_xor (Int Int) Int)
 (declare-fun bits_shl (Int Int) Int)
 (declare-fun bits_shr (Int Int) Int)
-(define-fun streq ((a Str) (b Str)) Bool (and (= (s_len a) (s_len b)) (forall ((k Int)) (=> (and (<= 0 k) (< k (s_len a))) (= (select (s_arr a) (+ (s_off a) k)) (select (s_arr b) (+ (s_off b) k)))))))
+`
+
+const streqDef = `(define-fun streq ((a Str) (b Str)) Bool (and (= (s_len a) (s_len b)) (forall ((k Int)) (=> (and (<= 0 k) (< k (s_len a))) (= (select (s_arr a) (+ (s_off a) k)) (select (s_arr b) (+ (s_off b) k)))))))
 `
 
 const maxLen = "1099511627776" // 2^40: assumed upper bound on any slice/string length (listed assumption)
